@@ -3,7 +3,7 @@
 From Coq Require Import List NArith ZArith Bool String.
 From ApiFu Require Import Base.Sexp.
 From ApiFu Require Syn.Ast Vld.Ast Val.Values ExeA.ArgData ExeA.ArgArgs ExeA.ArgModel ExeA.ArgSpec ExeA.ArgHyps.
-From ApiFu Require Vld.ValidatorModel Pipe.CostCompose Pipe.SubscribeCompose Pipe.InvariantProofs.
+From ApiFu Require Vld.ValidatorModel Pipe.CostCompose Pipe.SubscribeCompose Pipe.InvariantProofs Pipe.InvariantBridge.
 From ApiFu Require Import Pipe.PipelineModel Pipe.PipelineProofs Pipe.Convert Pipe.Compose Pipe.SchemaAgree Pipe.ComposeProofs Pipe.ComposeCheck.
 Import ListNotations.
 Open Scope string_scope.
@@ -54,6 +54,10 @@ Definition ex_ES : ExeA.ArgData.schema :=
 
 Example ex_schema_hypothesis : schema_accepted ex_ES = true.
 Proof. vm_compute. reflexivity. Qed.
+(** the schema hypotheses of C03_pipeline_response are satisfiable *)
+Example ex_es_wf : es_wf ex_ES = true. Proof. vm_compute. reflexivity. Qed.
+Example ex_vschema_wf : Pipe.InvariantBridge.vschema_wf ex_VS = true. Proof. vm_compute. reflexivity. Qed.
+Example ex_cost_schema_accepted : Pipe.CostCompose.cost_schema_accepted ex_ES = true. Proof. vm_compute. reflexivity. Qed.
 Example ex_schemas_agree : schemas_agree ex_VS ex_ES = true.
 Proof. vm_compute. reflexivity. Qed.
 
